@@ -159,78 +159,16 @@ def check(tier):
         srcs.append({"id": "c-" + n, "src": s, **({"schema": sch} if sch else {})})
     src_of = {r["id"]: r for r in srcs}
     # shards -> pv sqlast (all 12 dialects) -> walks -> SqlScopeTrace
-    nsh = 12
-    per = (len(srcs) + nsh - 1) // nsh
-    shards = [srcs[i * per:(i + 1) * per] for i in range(nsh)]
-    for i in range(nsh - 1):          # keep a twin in the shard of its declared program
-        while shards[i + 1] and shards[i + 1][0]["id"].endswith("o") and shards[i] and shards[i][-1]["id"] + "o" == shards[i + 1][0]["id"]:
-            shards[i].append(shards[i + 1].pop(0))
-    from concurrent.futures import ThreadPoolExecutor
-    def run(i):
-        ip = os.path.join(d, f"src{i}.ndjson"); op = os.path.join(d, f"ast{i}.ndjson")
-        write_ndjson(ip, shards[i])
-        pv(["sqlast", ip, op, "all"])
-        evs = []; stats = {"compiled": 0, "err": 0, "panic": 0, "unjudged_sstring": 0, "prepared": 0}
-        recs = {}
-        outcome = {}
-        for r in read_ndjson(op):
-            s = src_of[r["id"]]
-            outcome[(r["id"], r["dialect"])] = r["outcome"]
-            if r["id"].endswith("o") and r["id"][:-1] in src_of and outcome.get((r["id"][:-1], r["dialect"])) != "sql":
-                stats["unjudged_open_twin"] = stats.get("unjudged_open_twin", 0) + 1
-                continue
-            if r.get("oracle_limit"):
-                stats["oracle_limit_" + r["oracle_limit"]] = stats.get("oracle_limit_" + r["oracle_limit"], 0) + 1
-            if r.get("prepare") not in (None, "ok") and re.search("no such function|no such table: read_(csv|json|parquet)", r["prepare"]):
-                # which functions an SQLite build has is not a matter of syntax or scope
-                r["prepare"] = "ok"; stats["prepare_missing_function_unjudged"] = stats.get("prepare_missing_function_unjudged", 0) + 1
-            if r["dialect"] == "generic" and r.get("prepare") not in (None, "ok") and not re.search("no such column|no such table|ambiguous column", r["prepare"]):
-                # sql.generic is not SQLite: only binding errors of the prepare are evidence about it
-                r["prepare"] = "ok"; stats["generic_prepare_syntax_unjudged"] = stats.get("generic_prepare_syntax_unjudged", 0) + 1
-            has_s = re.search(r'\bs"|\bs\'', s["src"]) is not None
-            r["world"] = "open" if has_s else "closed"
-            r["schema"] = s.get("schema")
-            stats["compiled" if r["outcome"] == "sql" else r["outcome"]] += 1
-            if r.get("prepare") is not None:
-                stats["prepared"] += 1
-            if has_s and r["outcome"] == "sql" and (r.get("parse_error") or r.get("prepare") not in (None, "ok")):
-                stats["unjudged_sstring"] += 1      # SQL text supplied by the user
-                continue
-            recs[(r["id"], r["dialect"])] = {k: r.get(k) for k in ("sql", "parse_error", "prepare", "reason")}
-            evs += sqlwalk.walk(r)
-        evs.append(sqlwalk.E("Stop"))
-        tp = os.path.join(d, f"walk{i}.ndjson"); write_ndjson(tp, evs)
-        out, tinfo = tlc("SqlScopeTrace", "SqlScopeTrace.cfg", env={"TRACE": tp}, workers=1, deque=True, xmx="6g")
-        return tp, out, tinfo, stats, recs, len(evs)
-    with ThreadPoolExecutor(max_workers=6) as ex:
-        results = list(ex.map(run, range(nsh)))
-    tot = {}; nev = 0; nq = 0; nskip = 0; tstates = 0
-    limits = json.load(open(os.path.join(ROOT, "corpus", "oracle_limits.json")))["limits"]
-    nlimit = {}
+    import scoperun
+    sr = scoperun.run(d, srcs)
+    tot, nev, nq, nskip, tstates = sr["stats"], sr["events"], sr["judged"], sr["skipped"], sr["states"]
     verdicts = {}
-    for tp, out, tinfo, stats, recs, n in results:
-        tr = tuples(out, "TRACE")
-        if not tinfo["no_error"] or not tr or tr[0][1] != tr[0][2]:
-            open(tp + ".tlc.out", "w").write(out)
-            raise ToolError("SqlScopeTrace did not consume the trace: " + tinfo.get("error_text", out[-1200:])[:1500])
-        for k, v in stats.items():
-            tot[k] = tot.get(k, 0) + v
-        nev += n; tstates += tinfo.get("distinct", 0)
-        c = tuples(out, "COUNTS"); nq += c[-1][1]; nskip += c[-1][3]
-        for r in tuples(out, "REJECT"):
-            pid_, dialect, verdict, detail = r[1], r[2], r[3], r[4]
-            rec = recs.get((pid_, dialect), {})
-            if verdict == "walk":
-                raise ToolError(f"recorder/monitor mismatch on {pid_} {dialect}: {detail}: {rec.get('sql')}")
-            sig = signature(verdict, dialect, detail, src_of[pid_]["src"], rec, prog_of.get(pid_))
-            # limits of the syntax oracle (constructs the engine documents and sqlparser's grammar for it lacks)
-            lim = next((x for x in limits if x["dialect"] == dialect and verdict == "syntax" and re.search(x["sql_re"], sig["sql"]) and re.search(x["error_re"], sig["parse_error"])), None)
-            if lim:
-                nlimit[lim["id"]] = nlimit.get(lim["id"], 0) + 1
-                continue
-            verdicts[verdict] = verdicts.get(verdict, 0) + 1
-            rep.violation({"property": "C07", "kind": verdict, "dialect": dialect, "id": pid_, "prql": src_of[pid_]["src"], "sql": rec.get("sql"),
-                           "event": detail, "parse_error": rec.get("parse_error"), "prepare": rec.get("prepare"), "trace_file": os.path.relpath(tp, ROOT), "line": r[5]}, sig)
+    for rj in sr["rejects"]:
+        pid_, dialect, verdict, detail, rec = rj["id"], rj["dialect"], rj["verdict"], rj["detail"], rj["rec"]
+        sig = signature(verdict, dialect, detail, src_of[pid_]["src"], rec, prog_of.get(pid_))
+        verdicts[verdict] = verdicts.get(verdict, 0) + 1
+        rep.violation({"property": "C07", "kind": verdict, "dialect": dialect, "id": pid_, "prql": src_of[pid_]["src"], "sql": rec.get("sql"),
+                       "event": detail, "parse_error": rec.get("parse_error"), "prepare": rec.get("prepare"), "trace_file": rj["trace_file"], "line": rj["line"]}, sig)
     # binding demonstration: plant one scope defect of each kind into recorded statements and expect the rule's name
     selftest(d)
     cov = {"states": states + tstates, "transitions": transitions + nev, "traces_validated_against_impl": nq,
